@@ -290,6 +290,7 @@ def run_import(case, ctx, w, classes):
     imp = os.path.join(w.arr.rootb, b"imp")
     lost = []
     offers = {}
+    stale = []
     for k, dz in enumerate(case["decoys"]):
         dn, f = files[dz["src"] % len(files)]
         if (dn, f.sub) in offers:
@@ -316,6 +317,23 @@ def run_import(case, ctx, w, classes):
             rel = b"unsynced_offer%d" % k
             w.write_file(tdn, rel, offer, mtime_ns=mt, register=True)
         offers[(dn, f.sub)] = (good, where, data)
+        if not good and dz.get("rename_dir") == "dd2" and where == "import":
+            # a STALE offer: the import directory holds the bytes the file had at the last complete sync; the file is then
+            # rewritten (same size) and an interrupted sync records the new version with pending blocks, whose past hashes are
+            # those of the stale bytes.  Only data matching the hash of the block it replaces may be used: the stale copy never
+            with open(p, "wb") as fh:
+                fh.write(data)
+            stale.append((dn, f.sub, p))
+    if stale:
+        # re-point the rewrite at the right file (fs_step picks by index): do it by hand, then the interrupted sync
+        for dn, sub, p_imp in stale:
+            newdata = bytes((b ^ 0x77) for b in offers[(dn, sub)][2])
+            w.write_file(dn, sub, newdata)
+            offers[(dn, sub)] = (False, "import", newdata)
+            nmt = w.mtime_ns(dn, sub)
+            os.utime(p_imp, ns=(nmt, nmt))   # -i matches by size and time-stamp: the stale copy carries the new ones
+        w.cmd("sync", ["-E", "-Z", "--test-kill-after-sync"])
+        classes.add("stale offer for a file rewritten in an interrupted sync")
     for (dn, sub) in offers:
         os.unlink(w.full(dn, sub))
         lost.append((dn, sub))
